@@ -1095,6 +1095,7 @@ def m_hs_contains(c, call, s, k):
     s = deref(s); k = deref(k)
     if isinstance(s, ZSet):
         r = z3.Select(s.arr, k)
+        s.calls = getattr(s, 'calls', 0) + 1
         if s.hits >= s.K:
             c.assume(z3.Not(r)); c.cuts.append(f'in-use set: at most {s.K} consecutive occupied successors (assume)')
             return FALSE
